@@ -108,6 +108,16 @@ fn main() {
             }
             std::process::exit(engine::worker(c.as_ref(), tier, shard, nshards, &skip, out, seed, deadline));
         }
+        "c05run" => {
+            // c05run [--full] <corpus idx>...   (run under the getrandom shim by the C05 check)
+            let full = args.iter().any(|a| a == "--full");
+            println!("C05JSON {}", serde_json::json!({"probe": props::c05::probe_order()}));
+            for a in &args[2..] {
+                if let Ok(i) = a.parse::<usize>() {
+                    println!("C05JSON {}", props::c05::digest_of(i, full));
+                }
+            }
+        }
         "solo" => {
             // solo <ID> <tier> <idx> [out]
             let c = props::get(&args[2]).expect("unknown property");
